@@ -188,6 +188,59 @@ func runC11(p *an.Prog, r *an.Run, tier string) {
 		}
 		r.Check(len(bad) == 0, "only-known", kind, m.Pos(), "a peer is tracked only when registered, with its own LastSeen", "%s", strings.Join(dedup(bad), "; "))
 
+		// ---- active-set: NodePeers (the active and billable set) lists exactly the tracked set the eviction deletes
+		// from — not a second copy of it (a cached order, an index) that some transition forgets to maintain
+		if np := p.MethodOf(d, "NodePeers"); np != nil {
+			r.Analysed(an.FuncName(np))
+			var ab []string
+			nops := driverOps(p, d, np)
+			var setTargets []ssa.Value // badger: decode targets of reads in the peers space
+			for _, o := range nops {
+				if o.Kind == opRead && o.inSpace("peers") && o.Val != nil {
+					if al := allocOfValue(o.Val); al != nil {
+						setTargets = append(setTargets, al)
+					}
+				}
+			}
+			overSet := func(rg *ssa.Range) bool {
+				if kind == "memory" {
+					return memMapField(rg.X) == "peers"
+				}
+				if u, ok := rg.X.(*ssa.UnOp); ok && u.Op == token.MUL {
+					for _, t := range setTargets {
+						if sameObject(u.X, t) {
+							return true
+						}
+					}
+				}
+				return false
+			}
+			nLook := 0
+			for _, o := range nops {
+				if o.Kind != opRead || !o.inSpace("node") || o.Key == nil {
+					continue
+				}
+				dk := p.Derives(0, o.Key)
+				if len(np.Params) > 1 && dk.HasParam(np.Params[1]) {
+					continue // the node's own record
+				}
+				nLook++
+				okSet := false
+				for _, nd := range dk.Nodes {
+					if rg, ok := nd.(*ssa.Range); ok && overSet(rg) {
+						okSet = true
+					}
+				}
+				if !okSet {
+					ab = append(ab, "the peers looked up at "+p.Pos(o.In.Pos())+" are not enumerated from the tracked peer set itself: a peer evicted from the set could stay listed (and billed)")
+				}
+			}
+			if nLook == 0 {
+				ab = append(ab, "NodePeers does not look up the tracked peers' node records")
+			}
+			r.Check(len(ab) == 0, "active-set", kind, np.Pos(), "NodePeers enumerates the tracked peer set itself", "%s", strings.Join(dedup(ab), "; "))
+		}
+
 		// ---- evict-predicate
 		bad = nil
 		if len(ps.deletes) != 1 {
@@ -387,6 +440,10 @@ func runC11(p *an.Prog, r *an.Run, tier string) {
 	if len(updPeers) != 1 || len(nodePeers) != 1 {
 		bad = append(bad, "expected one UpdateNodePeers and one NodePeers call")
 	} else {
+		// every id the node reports reaches the store (shared with C02.peer-ids)
+		if ua := methodArgs(updPeers[0]); len(ua) >= 2 {
+			bad = append(bad, reportedIDsComplete(p, ua[1])...)
+		}
 		stores := map[string][]ssa.Value{}
 		for _, rf := range regionFuncs(p, upd) {
 			an.AllInstrs(rf, func(in ssa.Instruction) {
